@@ -26,8 +26,6 @@ Deviations of the pinned tree that these checks report (kept as checks, each und
     'formula with a numpy-scalar variable' confirms)
   * 'negative power of an exactly singular matrix': the refusal relies on LAPACK meeting an exact zero pivot, e.g.
     MathArray([[1, 2, 3], [4, 5, 6], [5, 7, 9]]) ** -1 returns entries of magnitude 1e15
-  * 'product chain of 4 operands': '[[1,2]]*[1,0]*[0,1]*[1,1]' (a single-row matrix or a vector*single-column matrix collapses to a number
-    first) multiplies three vectors in one unparenthesised chain without being refused
 """
 import operator
 import random
@@ -176,7 +174,11 @@ def oracle(op, L, R):
 
 
 def chain_oracle(node):
-    """node = value | ('chain', [nodes], [ops]); a parenthesised group is a nested chain.  Three or more vector operands in one flat chain: refused."""
+    """node = value | ('chain', [nodes], [ops]); a parenthesised group is a nested chain.
+    A flat chain is evaluated left to right (C03).  It must be refused when a vector is multiplied into the running product after a
+    vector*vector product has already occurred in the same chain ((a.b)c vs a(b.c): the ambiguity the statement names).  Where three
+    vectors occur in the chain but one of them was consumed by a matrix-vector product first (e.g. [[1,2]]*[1,0]*[0,1]*[1,1]), the
+    left-to-right value is well defined: the statement does not say which of {refusal, that value} applies, so either is accepted."""
     if not (isinstance(node, tuple) and len(node) == 3 and node[0] == 'chain'):
         return ('value', node)
     vals = []
@@ -185,15 +187,21 @@ def chain_oracle(node):
         if o[0] != 'value':
             return ('error',)
         vals.append(o[1])
-    if sum(1 for v in vals if is_arr(v) and v.ndim == 1) >= 3:
-        return ('error',)
+    is_vec = lambda v: is_arr(v) and v.ndim == 1
+    many_vectors = sum(1 for v in vals if is_vec(v)) >= 3
     acc = vals[0]
+    vv = False
     for op, v in zip(node[2], vals[1:]):
+        if op == '*' and is_vec(v):
+            if vv:
+                return ('error',)
+            if is_vec(acc):
+                vv = True
         o = oracle(op, acc, v)
         if o[0] != 'value':
             return ('error',)
         acc = o[1]
-    return ('value', acc)
+    return ('either', acc) if many_vectors else ('value', acc)
 
 
 # --------------------------------------------------------------------------------------------------------- rendering
